@@ -310,6 +310,16 @@ def check_C03(chk):
                                   % (c0["k"], c0["npk"], "another sender handle survives" if c0["survivor"] else "no other sender", why),
                                   {"input": c0, "child_progress": it["child"], "observed": it["rec"]}, key="c03crash:npk=%d k=%d s=%d" % (c0["npk"], c0["k"], c0["survivor"]))
         chk.coverage["crashed_sender_scenarios"] = len(ccases)
+        # sends that fail while serialising or are refused after embedding the only sender of a channel: with the program's handles
+        # gone that channel is finished (res scenarios ser_fail_att / send_closed_probe on both builds)
+        for fl in ("default", "inprocess"):
+            rrecs, _, rrc, rerr = C.run_harness(bins[fl], "res", ["scen name=ser_fail_att n=6", "scen name=send_closed_probe n=4"], shim=False, timeout=120)
+            for sname in ("ser_fail_att", "send_closed_probe"):
+                rr = next((r for r in rrecs if r.get("kind") == "scen" and r.get("name") == sname), None)
+                if rr is None:
+                    chk.failing_input("scenario %s did not complete on the %s build (rc=%s): %s" % (sname, fl, rrc, rerr[-300:]), {"scenario": sname, "build": fl}, key="c03res:%s:%s" % (fl, sname))
+                elif rr.get("notes"):
+                    chk.failing_input("%s build: %s" % (fl, rr["notes"][0]), {"scenario": sname, "build": fl, "record": rr}, key="c03res:%s:%s:notes" % (fl, sname))
         # what the three receive variants REPORT, sequences with undecodable (too short) messages among them: 'disconnected' is said when
         # no sender is left and the queue is drained - not for a message the receiver's type cannot decode
         from . import props_set as PS0
@@ -598,7 +608,7 @@ def check_C11(chk):
     tmp = os.path.join(C.BUILD, "tmp", "res-%d" % os.getpid())
     os.makedirs(tmp, exist_ok=True)
     names = ["connect_missing", "server_unused", "server_cycle", "connect_after_accept", "shm_cycle", "set_cycle", "send_closed_att",
-             "undecoded_drop", "undecoded_low_fd", "prefix_decode_fresh_thread", "server_bad_tmpdir", "router_cycle", "ser_fail_att", "connect_long", "server_noshow", "server_bad_first", "send_closed_big_att"]
+             "undecoded_drop", "undecoded_low_fd", "prefix_decode_fresh_thread", "too_many_att", "server_bad_tmpdir", "router_cycle", "ser_fail_att", "connect_long", "server_noshow", "server_bad_first", "send_closed_big_att"]
     for fl in ("default", "memfd"):
         recs, trace, rc, err = C.run_harness(bins[fl], "res", ["scen name=%s n=%d" % (s, n) for s in names] + ["inherit"],
                                              env_extra={"TMPDIR": tmp}, timeout=900)
